@@ -33,7 +33,8 @@ def run(res, tier, seed):
     coq = []
     plans = [("gac_klm", "noaa16", datetime.datetime(2003, 2, 4, 10, 0, 0), 70), ("lac_klm", "metopa", datetime.datetime(2010, 7, 1, 3, 0, 0), 60),
              ("gac_klm", "noaa16", datetime.datetime(2004, 1, 14, 15, 0, 0), 70),   # inside a scan-motor interval of NOAA-16
-             ("gac_klm", "noaa17", datetime.datetime(2003, 10, 1, 12, 0, 0), 60)]   # (NOAA-15 has no 3a calibration: NaN gain switch)
+             ("gac_klm", "noaa17", datetime.datetime(2003, 10, 1, 12, 0, 0), 60),   # (NOAA-15 has no 3a calibration: NaN gain switch)
+             ("gac_klm", "noaa18", datetime.datetime(2009, 3, 4, 10, 0, 0), 1300)]  # a pass of more than 1024 lines
     if tier == "thorough":
         plans += [("gac_klm", "noaa18", datetime.datetime(2008, 2, 4, 10, 0, 0), 300), ("lac_klm", "noaa19", datetime.datetime(2012, 2, 4, 10, 0, 0), 120)]
     for fmt, sc, start, n in plans:
@@ -60,6 +61,8 @@ def run(res, tier, seed):
             continue
         allseq = seqs(rng, n)
         names = list(allseq) if tier == "thorough" or fmt == "gac_klm" else ["alternating", "random", "3b+trans", "all3a"]
+        if n > 1000:
+            names = ["random", "3b+trans"]
         for name in names:
             sw = allseq[name]
             hi = [rng.getrandbits(16) & 0xFFFC for _ in range(n)]
